@@ -91,8 +91,20 @@ impl Scalar for Sym {
         (k + 1) << 11
     }
     fn removal_order(vals: &[Self]) -> Vec<usize> {
+        // kappa of the k-th removed edge is a product of k-1 factors xi^(1/omega): order by the number of factors
+        fn factors(nodes: &[sym::Node], i: u32) -> usize {
+            match &nodes[i as usize] {
+                sym::Node::Mul(a, b) => factors(nodes, *a) + factors(nodes, *b),
+                sym::Node::Const(_) | sym::Node::CF(_) => 0,
+                _ => 1,
+            }
+        }
+        let counts: Vec<usize> = sym::CTX.with(|c| {
+            let c = c.borrow();
+            vals.iter().map(|v| factors(&c.nodes, v.0)).collect()
+        });
         let mut idx: Vec<usize> = (0..vals.len()).collect();
-        idx.sort_by_key(|i| vals[*i].0);
+        idx.sort_by_key(|i| counts[*i]);
         idx
     }
     fn narrow_log() -> Vec<(Vec<Self>, Self)> {
@@ -218,13 +230,18 @@ pub fn goal<T: Scalar>(name: impl Into<String>, lhs: T, rel: Rel, rhs: T) -> Goa
 
 /// evaluate a goal natively: Some(message) if violated beyond `tol` (relative)
 pub fn native_violation(g: &Goal<f64>, tol: f64) -> Option<String> {
+    native_violation_floor(g, tol, 0.0)
+}
+
+/// `floor`: absolute slack (differences below it are rounding noise of quantities that are zero analytically)
+pub fn native_violation_floor(g: &Goal<f64>, tol: f64, floor: f64) -> Option<String> {
     if !g.alts.is_empty() {
         let mut all = vec![(g.lhs, g.rel, g.rhs)];
         all.extend(g.alts.iter().cloned());
         let mut msgs = vec![];
         for (l, rel, r) in all {
             let single = Goal { name: g.name.clone(), rel, lhs: l, rhs: r, scale: g.scale, pow: None, only_cuts: None, alts: vec![], loglin: false };
-            match native_violation(&single, tol) {
+            match native_violation_floor(&single, tol, floor) {
                 None => return None,
                 Some(m) => msgs.push(m),
             }
@@ -235,9 +252,11 @@ pub fn native_violation(g: &Goal<f64>, tol: f64) -> Option<String> {
     let sc = g.scale.unwrap_or_else(|| a.abs().max(b.abs())).abs().max(f64::MIN_POSITIVE);
     let bad = match g.rel {
         Rel::Eq | Rel::Le if a.to_bits() == b.to_bits() => false,
+        // IEEE: NaN != x holds, every ordered comparison with NaN fails
+        Rel::Ne if a.is_nan() || b.is_nan() => false,
         _ if a.is_nan() || b.is_nan() => true,
-        Rel::Eq => (a - b).abs() > tol * sc,
-        Rel::Le => a - b > tol * sc,
+        Rel::Eq => (a - b).abs() > tol * sc + floor,
+        Rel::Le => a - b > tol * sc + floor,
         Rel::Lt => !(a < b),
         Rel::Ne => a == b,
     };
